@@ -2,6 +2,7 @@ import EudoxiaModel.Model.Sched.Overbook
 import EudoxiaModel.Proofs.WorldInv
 import EudoxiaModel.Proofs.OverbookLoop
 import EudoxiaModel.Proofs.OverbookExample
+import EudoxiaModel.Proofs.FreshWorlds
 /-! # C18 — overbook: one operator and one CPU per container, full-pool RAM, CPU-bound -/
 namespace Eudoxia.C18
 open Eudoxia Eudoxia.Overbook OpState Extracted
@@ -117,5 +118,14 @@ theorem overbook_run_never_raises (arrivals : List (List Nat)) (w : World) (st :
 theorem overbook_theorem_applies_to_a_concrete_world (multi : Bool) (arrivals : List (List Nat)) :
     ∃ out, Overbook.loop (OverbookExample.world multi) {} [] arrivals = .ok out :=
   OverbookExample.runs multi arrivals
+
+/-- **from every fresh world**: any configuration with memory overcommit on (either container mode), any pools with some RAM, any registered workload whose
+pipelines list existing operators once and give each a segment, any arrival batches: the run of overbook and the executor reaches its last tick, and ends — as
+it was at every tick boundary — with one operator per container and no write-out in progress -/
+theorem overbook_runs_from_every_fresh_world (cfg : Cfg) (store : Store) (pipes : Array PipeInfo) (caps : List (Nat × Nat)) (arrivals : List (List Nat))
+    (ho : cfg.overcommit = true) (hc : ∀ c ∈ caps, 0 < c.2)
+    (wf : (freshWorld cfg store pipes caps).WFP) (hs : (freshWorld cfg store pipes caps).SegsOK) :
+    ∃ w' st' res', Overbook.loop (freshWorld cfg store pipes caps) {} [] arrivals = .ok (w', st', res') ∧ OBInv w' st' res' :=
+  Overbook.run_never_raises arrivals _ {} [] (Overbook.fresh_inv cfg store pipes caps ho hc wf hs)
 
 end Eudoxia.C18
